@@ -57,32 +57,42 @@ def _probe_flags(inp, tinp, zinp, lon, lat, p):
     return np.ma.array(np.array(out, dtype="uint8"))
 
 
-def _faults(inp, fault):
+class ProbeError(Exception):
+    pass
+
+
+OTHER_EXC = [KeyError, IndexError, AttributeError, RuntimeError, ZeroDivisionError, ProbeError, AssertionError]
+
+
+def _faults(inp, fault, p=0):
     import numpy as np
 
     if fault == 1:
         raise ValueError("probe: configured to raise")
+    if fault == 3:
+        # any Exception class must be caught by Call.run, not only the usual ValueError / TypeError
+        raise OTHER_EXC[p % len(OTHER_EXC)]("probe: configured to raise")
     if fault == 2 and np.asarray(inp).size < 2:
         raise ValueError("probe: needs two rows")
 
 
 def probe_test(inp, tinp=None, zinp=None, lon=None, lat=None, p=0, fault=0):
-    _faults(inp, fault)
+    _faults(inp, fault, p)
     return _probe_flags(inp, tinp, zinp, lon, lat, p)
 
 
 def probe_test_b(inp, tinp=None, zinp=None, lon=None, lat=None, p=0, fault=0):
-    _faults(inp, fault)
+    _faults(inp, fault, p)
     return _probe_flags(inp, tinp, zinp, lon, lat, p)
 
 
 def probe_needs_z(inp, zinp, tinp=None, lon=None, lat=None, p=0, fault=0):
-    _faults(inp, fault)
+    _faults(inp, fault, p)
     return _probe_flags(inp, tinp, zinp, lon, lat, p)
 
 
 def probe_needs_t(inp, tinp, zinp=None, lon=None, lat=None, p=0, fault=0):
-    _faults(inp, fault)
+    _faults(inp, fault, p)
     return _probe_flags(inp, tinp, zinp, lon, lat, p)
 
 
@@ -256,10 +266,11 @@ class StreamRun(Adapter):
     MODEL_FN = {"pandas": "pandas_run", "numpy": "numpy_run", "netcdf": "numpy_run", "xarray": "xarray_run"}
 
     def model(self, case):
-        return f"({self.MODEL_FN[case['frontend']]} TestId Kw probe {self._cfg(case)} {self._table(case)})"
+        return (f"({self.MODEL_FN[case['frontend']]} TestId Kw probe (group_contexts TestId Kw {self._cfg(case)}) "
+                f"{self._table(case)})")
 
     def spec(self, case):
-        return f"(spec_run TestId Kw probe {self._cfg(case)} {self._table(case)})"
+        return f"(spec_run TestId Kw probe (group_contexts TestId Kw {self._cfg(case)}) {self._table(case)})"
 
     def expected(self, canon):
         if canon.startswith("R:"):
@@ -363,6 +374,8 @@ def gen_stream(tier, rng, frontends=("pandas", "numpy", "netcdf", "xarray"), fau
                 continue
             seen.add(w)
             windows.append(w)
+        if len(windows) >= 2 and rng.random() < 0.25:
+            windows.append(windows[0])           # the same context listed again later (A, B, A)
         cfg = []
         for (a, b) in windows:
             entries = []
@@ -374,7 +387,7 @@ def gen_stream(tier, rng, frontends=("pandas", "numpy", "netcdf", "xarray"), fau
                 for tname in tests:
                     fault = 0
                     if faults and rng.random() < 0.35:
-                        fault = rng.choice([1, 2])
+                        fault = rng.choice([1, 2, 3, 3])
                     entries.append({"kind": "call", "stream": sname, "test": tname, "p": rng.randint(0, 4), "fault": fault})
                 if faults and rng.random() < 0.3:
                     entries.insert(rng.randint(0, len(entries)),
@@ -393,6 +406,23 @@ def gen_stream(tier, rng, frontends=("pandas", "numpy", "netcdf", "xarray"), fau
                           "lon": axes["lon"], "cols": cols, "index": index if fe == "pandas" else list(range(n)),
                           "cfg": cfg})
     return cases
+
+
+def grouped_cfg(cfg):
+    """Config.contexts: calls grouped by equal window, groups in first-seen order (contexts without calls
+    that survive parsing do not create a group)"""
+    out = []
+    for c in cfg:
+        ents = [e for e in c["entries"] if e["kind"] == "call"]
+        if not ents:
+            continue
+        for g in out:
+            if g["start"] == c["start"] and g["end"] == c["end"]:
+                g["entries"] += ents
+                break
+        else:
+            out.append({"start": c["start"], "end": c["end"], "entries": list(ents)})
+    return out
 
 
 class StreamSpec(StreamRun):
@@ -450,17 +480,17 @@ def fault_isolation_failures(case):
     # which entries produced a result, per context (yield order = context order, then call order)
     produced = set()
     it = iter(res)
-    for ci, c in enumerate(case["cfg"]):
-        for e in c["entries"]:
+    for ci, c in enumerate(grouped_cfg(case["cfg"])):
+        for ei, e in enumerate(c["entries"]):
             if e["kind"] != "call" or e["stream"] not in [n for n, _ in case["cols"]]:
                 continue
             r = next(it, None)
             if r is not None and len(r.results) == 1:
-                produced.add((ci, e["stream"], e["test"]))
+                produced.add((ci, ei))
     healthy = dict(case)
     healthy["cfg"] = [{"start": c["start"], "end": c["end"],
-                       "entries": [e for e in c["entries"] if e["kind"] == "call" and (ci, e["stream"], e["test"]) in produced]}
-                      for ci, c in enumerate(case["cfg"])]
+                       "entries": [e for ei, e in enumerate(c["entries"]) if (ci, ei) in produced]}
+                      for ci, c in enumerate(grouped_cfg(case["cfg"]))]
     try:
         only, _ = collected_dict(healthy)
     except Exception as e:  # noqa: BLE001
@@ -491,7 +521,7 @@ def direct_call_failures(case):
                  "clause": "front end raised"}]
     it = iter(res)
     names = [n for n, _ in case["cols"]]
-    for c in case["cfg"]:
+    for c in grouped_cfg(case["cfg"]):
         if case["time"] is None:
             m = [True] * case["n"]
         else:
